@@ -363,14 +363,46 @@ def sections(ctx, crate, E):
                "are applied to another feature side" % (lit, found.get(lit), k))
 
 
+def rulecells(ctx, crate, E):
+    """RULECELLS (C17): the pattern and the rewrite of a rule are the comma-separated cells of
+    their columns, all of them. `*` matches anything but still *requires* a feature at its
+    position, so a pattern `a,*,*` does not match a two-column row; dropping trailing `*` cells
+    (or any other cell) from what parse_rewrite_rule returns changes which rows a rule matches."""
+    p = "vibrato::trainer::config::TrainerConfig::parse_rewrite_rule"
+    f = crate.fns.get(p)
+    if f is None or not f.body:
+        raise EngineError("RULECELLS: anchor lost: %s" % p)
+    fa = E.fa(p)
+    shrink = []
+    for b, t in fa.calls():
+        nm = sorted(_names(t))[0]
+        if nm in ("pop", "truncate", "retain", "retain_mut", "drain", "remove", "swap_remove", "dedup",
+                  "clear", "split_off", "trim_end_matches", "trim_matches", "strip_suffix", "take_while",
+                  "skip_while", "filter", "rsplitn", "splitn"):
+            shrink.append("%s (%s)" % (nm, fa.loc(b)))
+    splits = [b for b, t in fa.calls() if sorted(_names(t))[0] == "split" and len(t["args"]) > 1]
+    ctx.floor("RULECELLS", "comma splits in parse_rewrite_rule", len(splits), 2)
+    ctx.ob("RULECELLS", "%s|all-cells-kept" % p, not shrink, _loc(crate, p),
+           "parse_rewrite_rule returns every comma-separated cell of the pattern and of the rewrite"
+           if not shrink else
+           "parse_rewrite_rule removes cells or characters from the columns it splits (%s): a rule "
+           "then matches rows it should not (a trailing `*` still demands a feature at its position)"
+           % ", ".join(shrink))
+
+
 def run(ctx):
     crate = ctx.facts("A").lib
     E = Effects(crate)
-    build(ctx, crate, E)
-    scan(ctx, crate, E)
-    refsubst(ctx, crate, E)
-    fallback(ctx, crate, E)
-    sections(ctx, crate, E)
+    errs = []
+    for sub in (build, scan, refsubst, fallback, sections, rulecells):
+        try:
+            sub(ctx, crate, E)
+        except EngineError as e:
+            errs.append(str(e))
+        except Exception as e:
+            errs.append("%s could not analyse this tree (%s: %s)" % (sub.__name__, type(e).__name__, e))
     ctx.assume("C17: the rules decide that trie order is registration order (builder) and that the "
                "matcher is a front-to-back depth-first search returning the first Rewrite; the "
                "matcher's backtracking bookkeeping and the pattern tests themselves are not decided")
+    if errs:
+        raise EngineError("; ".join(errs))
